@@ -208,6 +208,18 @@ func tryCreateDateTimestamp(year, month, day int, precision TimestampPrecision) 
 }
 
 func tryCreateTimestamp(ts []int, nsecs int, overflow bool, offset, sign int64, precision TimestampPrecision, fractionPrecision uint8) (Timestamp, error) {
+	timestamp, err := createTimestamp(ts, nsecs, overflow, offset, sign, precision, fractionPrecision)
+	if err != nil {
+		return Timestamp{}, err
+	}
+	// Ion timestamps only cover the (local) years 0001 through 9999.
+	if year := timestamp.dateTime.Year(); year < 1 || year > 9999 {
+		return Timestamp{}, fmt.Errorf("ion: invalid timestamp")
+	}
+	return timestamp, nil
+}
+
+func createTimestamp(ts []int, nsecs int, overflow bool, offset, sign int64, precision TimestampPrecision, fractionPrecision uint8) (Timestamp, error) {
 	date := time.Date(ts[0], time.Month(ts[1]), ts[2], ts[3], ts[4], ts[5], nsecs, time.UTC)
 	// time.Date converts 2000-01-32 input to 2000-02-01
 	if ts[0] != date.Year() || time.Month(ts[1]) != date.Month() || ts[2] != date.Day() {
